@@ -7,6 +7,16 @@ src = f"/tmp/seed-{pid}/OUT" if rnd == "1" else f"/tmp/seed{rnd}-{pid}/OUT"
 name = L if rnd == "1" else {"A": "C", "B": "D"}[L]
 dst = f"/verif/seeded/{pid}-{name}"
 os.makedirs(dst, exist_ok=True)
+if needs == "-":
+    # take the "needs ..." paragraph of this change from the seeder's NOTES.md
+    import re
+    notes = open(f"{src}/NOTES.md").read()
+    m = re.search(r'^(#+\s*|\*\*)?(Change\s+)?B\b(?!\.patch)', notes, re.M)
+    half = notes[:m.start()] if (m and L == "A") else (notes[m.start():] if m else notes)
+    paras = [q for q in re.split(r'\n\s*\n', half) if re.search(r'\bneeds?\b', q, re.I)]
+    needs = re.sub(r'\s+', ' ', paras[0]).strip()[:700] if paras else "see notes.md"
+if os.path.exists(f"{src}/NOTES.md"):
+    shutil.copy(f"{src}/NOTES.md", f"{dst}/notes.md")
 shutil.copy(f"{src}/{L}.patch", f"{dst}/patch.diff")
 demo = f"{src}/{L}_demo_test.go"
 shutil.copy(demo, f"{dst}/demo_test.go.txt")
